@@ -74,6 +74,22 @@ let run_x ?(cmp_dangling = true) (sg : bool) (init0 : string) (changes : change 
       (match idx with None -> "none" | Some l -> keys l) (dash (String.concat ";" puts))
       (if cmp_dangling then string_of_int (int_of_nat dg) else "*")
 
+(* Y <skipgc> <init> <live0> <changes> <Z> <ev> ...: an end-to-end run on one tag with the
+   manifest exchanges (M<t> = the delete's manifest DELETE) replayed by lvis_summary *)
+let run_y (sg : bool) (init0 : string) (live0 : string) (changes : change list) (z : string) (evs : string list) : string =
+  let ints s = if s = "-" then [] else List.map int_of_string (String.split_on_char ',' s) in
+  let r0 = if init0 = "none" then None else Some (List.map (fun k -> { dkey = n_of_int k; dart = N0; dpay = N0 }) (ints init0)) in
+  let num e = nat_of_int (int_of_string (String.sub e 1 (String.length e - 1))) in
+  let vs = List.map (fun e -> if e.[0] = 'M' then VM (num e) else if e.[0] = 'N' then VN (num e) else LV (parse_vis e)) evs in
+  match lvis_summary sg r0 (List.map n_of_int (ints live0)) changes vs with
+  | None -> "REJECT"
+  | Some ((live, busy), taint) ->
+    let zs = ints z in
+    let excl = List.map int_of_n busy @ List.map int_of_n taint in
+    let l = List.sort_uniq compare (List.filter (fun k -> not (List.mem k zs) && not (List.mem k excl)) (List.map int_of_n live)) in
+    let b = List.length (List.sort_uniq compare (List.filter (fun k -> not (List.mem k zs)) excl)) in
+    Printf.sprintf "Y L %s B %d" (if l = [] then "-" else String.concat "," (List.map string_of_int l)) b
+
 let cap_num = function CapUnknown -> 0 | CapSupported -> 1 | CapUnsupported -> 2
 
 let () =
@@ -93,6 +109,8 @@ let () =
       if List.exists (fun e -> String.length e > 2 && String.sub e (String.length e - 2) 2 = ":2") evs
       then Printf.printf "%s UNJUDGED response lost after effect\n" id else
       Printf.printf "%s %s\n" id (run_x ~cmp_dangling:(String.length sg = 1) (sg.[0] = '1') init0 (parse_changes cs) evs)
+    | id :: "Y" :: sg :: init0 :: live0 :: cs :: z :: evs ->
+      Printf.printf "%s %s\n" id (run_y (sg = "1") init0 live0 (parse_changes cs) z evs)
     | [id; "K"; bits] ->
       let bs = List.init (String.length bits) (fun i -> bits.[i] = '1') in
       let rs = set_caps CapUnknown bs in
